@@ -20,7 +20,9 @@ func probe(path string) {
 	defer e.cleanup()
 	for _, tr := range traces {
 		res := result{Counters: map[string]int{}}
-		e.run(&res, tr)
+		if cl := e.run(&res, tr); cl != nil {
+			cl()
+		}
 		b, _ := json.MarshalIndent(res, "", " ")
 		fmt.Println(string(b))
 	}
